@@ -169,12 +169,17 @@ def run_case(rng, idx, tier, lane, ctx):
         names = defn["params"] + [d[0] for d in defn["derived"]]
         try:
             if kind == "new_param":
-                pn = "p%d" % len(defn["params"])
-                m.param_list = [pn]
-                defn["params"].append(pn)
-                defn["values"][pn] = round(rng.uniform(.2, 2), 4)
-                m.parameters = {pn: defn["values"][pn]}
-                hist.append([kind, pn, defn["values"][pn]])
+                # 1-3 new parameters in one assignment (as many as the model already has, fewer, or more)
+                news = ["p%d" % (len(defn["params"]) + i_) for i_ in range(rng.choice([1, 1, 2, 3, len(defn["params"])]))]
+                m.param_list = list(news) if rng.random() < 0.7 else tuple(news)
+                for pn in news:
+                    defn["params"].append(pn)
+                    defn["values"][pn] = round(rng.uniform(.2, 2), 4)
+                if rng.random() < 0.6:
+                    m.parameters = {pn: defn["values"][pn] for pn in news}
+                else:
+                    m.parameters = [defn["values"][q] for q in defn["params"]]
+                hist.append([kind, news, [defn["values"][pn] for pn in news]])
             elif kind == "new_derived":
                 dn = "d%d" % len(defn["derived"])
                 eq = "%s*%s/(1+%s)" % (rng.choice(defn["params"]), rng.choice(S), rng.choice(S))
